@@ -302,7 +302,7 @@ def keep_failing_histories(ctx, res):
                 if key in seen or not d.get("file"):
                     continue
                 seen.add(key)
-                o.write(extract_history(d["file"], d["hist"]))
+                o.write(extract_history(d["file"], d["hist"]) or (d.get("case", "") + "\n"))
         for d in res.oracle_fails + res.disagreements:
             d["file"] = os.path.relpath(outp, vc.VERIF)
     shutil.rmtree(ctx.scratch, ignore_errors=True)
@@ -351,4 +351,35 @@ def jaeger_stream(ctx):
                 if l.startswith("J "):
                     res.samples.append(l.strip()[:600]); break
     keep_failing_files(ctx, res)
+    return res
+
+
+def twins_stream(ctx):
+    """C15: plain vs #[trace] twins (outcome/effects equality decided in the harness, recorded
+    spans compared with the model through system histories)"""
+    res = StreamResult("twins")
+    res.known_ids = set()
+    os.makedirs(ctx.scratch, exist_ok=True)
+    bindir = ctx.harness("core")
+    drv = ctx.driver()
+    n = ctx.scale(6, 150)
+    files, cmds = [], []
+    for s in range(16):
+        f = os.path.join(ctx.scratch, "twins-%d.txt" % s)
+        cmds.append("%s/vharness twins --seed %d --n %d --out %s" % (bindir, ctx.seed * 1000 + s, n, f)); files.append(f)
+    for rc, out in vc.parallel(cmds):
+        if rc != 0:
+            raise BuildError("harness twins run failed: " + out[-2000:])
+    outs = vc.parallel(["%s sys %s C15" % (drv, f) for f in files])
+    for (rc, out), f in zip(outs, files):
+        if rc != 0:
+            raise BuildError("model driver failed on %s: %s" % (f, out[-2000:]))
+        parse_sys_output(res, out, f)
+        collect_stats(res, f, nsamples=0)
+    for f in files[:1]:
+        with open(f, errors="replace") as fh:
+            for l in fh:
+                if l.startswith("T "):
+                    res.samples.append(l.strip()[:500]); break
+    keep_failing_histories(ctx, res)
     return res
